@@ -273,7 +273,8 @@ Record msg := mkmsg {
 
 Definition has_alt (m : msg) : bool := Nat.ltb 1 (length (m_parts m)).
 Definition has_mixed (m : msg) : bool :=
-  (Nat.ltb 0 (length (m_parts m)) && Nat.ltb 0 (length (m_attach m))) || Nat.ltb 1 (length (m_attach m)).
+  ((Nat.ltb 0 (length (m_parts m)) || Nat.ltb 0 (length (m_embeds m))) && Nat.ltb 0 (length (m_attach m)))
+  || Nat.ltb 1 (length (m_attach m)).
 Definition has_related (m : msg) : bool :=
   (Nat.ltb 0 (length (m_parts m)) && Nat.ltb 0 (length (m_embeds m))) || Nat.ltb 1 (length (m_embeds m)).
 
@@ -343,8 +344,16 @@ Definition with_hdr (f : file) (h : list (bytes * bytes)) : file :=
 Definition file_headers (wenc : N) (is_attachment : bool) (f : file) : file * enc :=
   (with_hdr f (fst (file_hdrs wenc is_attachment f)), snd (file_hdrs wenc is_attachment f)).
 
+(* msgWriter.writePartHeader: the header section of an entity at depth 0 in the form
+   multipart.Writer.CreatePart uses (sorted keys, one unfolded line per value, empty line);
+   used by the S/MIME pre-render (msgWriter.enclosedForm) *)
+Definition write_part_header (hdrs : list (bytes * list bytes)) (st : mw) : mw :=
+  write_string crlf
+    (fold_left (fun s kv => fold_left (fun s2 v => write_string (fst kv ++ bs ": " ++ v ++ crlf) s2) (snd kv) s)
+               (sort_kv hdrs) st).
+
 (* msgWriter.addFiles over files whose headers are already synthesised (file, body encoding) *)
-Fixpoint add_files (files : list (file * enc)) (st : mw) : mw :=
+Fixpoint add_files (encl : bool) (files : list (file * enc)) (st : mw) : mw :=
   match files with
   | [] => st
   | (f', e) :: rest =>
@@ -352,24 +361,26 @@ Fixpoint add_files (files : list (file * enc)) (st : mw) : mw :=
       else
         let hdrs := map (fun kv => (fst kv, [snd kv])) (f_hdr f') in
         let st1 := if Nat.eqb (depth st) 0
-                   then write_string crlf
-                          (fold_left (fun s kv => write_header_uncounted (fst kv) (snd kv) s) (sort_kv hdrs) st)
+                   then (if encl then write_part_header hdrs st
+                         else write_string crlf
+                                (fold_left (fun s kv => write_header_uncounted (fst kv) (snd kv) s) (sort_kv hdrs) st))
                    else new_part hdrs st in
         let st2 := if err st1 then st1 else st1 |> write_body (f_prod f') e in
-        add_files rest st2
+        add_files encl rest st2
   end.
 
 (* msgWriter.writePart *)
-Definition write_part (wenc : N) (msg_charset : bytes) (p : part) (st : mw) : mw :=
+Definition write_part (encl : bool) (wenc : N) (msg_charset : bytes) (p : part) (st : mw) : mw :=
   let cs := match p_charset p with [] => msg_charset | c => c end in
   let ctype := p_ctype p ++ bs "; charset=" ++ cs in
   let cte := enc_name (p_enc p) in
+  let hdrs := (match p_desc p with [] => [] | d => [(h_cdesc, [word_encode wenc d])] end)
+              ++ [(h_cte, [cte]); (h_ctype, [ctype])] in
   let st1 :=
     if Nat.eqb (depth st) 0 then
-      write_string crlf (write_header_uncounted h_ctype [ctype] (write_header_uncounted h_cte [cte] st))
-    else
-      new_part ((match p_desc p with [] => [] | d => [(h_cdesc, [word_encode wenc d])] end)
-                ++ [(h_cte, [cte]); (h_ctype, [ctype])]) st in
+      (if encl then write_part_header hdrs st
+       else write_string crlf (write_header_uncounted h_ctype [ctype] (write_header_uncounted h_cte [cte] st)))
+    else new_part hdrs st in
   if err st1 then st1 else st1 |> write_body (p_prod p) (p_enc p).
 
 Definition mime_version_hdr : bytes * list bytes := (bs "MIME-Version", [bs "1.0"]).
@@ -450,24 +461,33 @@ Definition write_addr_headers (m : msg) (st : mw) : mw :=
                | None => s
                end) Gen.render_addr_headers st3.
 
-Definition write_parts (m : msg) (st : mw) : mw :=
-  fold_left (fun s p => s |> write_part (m_wenc m) (m_charset m) p) (m_parts m) st.
+Definition write_parts (encl : bool) (m : msg) (st : mw) : mw :=
+  fold_left (fun s p => s |> write_part encl (m_wenc m) (m_charset m) p) (m_parts m) st.
 
-Definition add_files_safe (files : list (file * enc)) (st : mw) : mw :=
-  if panicked st then st else add_files files st.
+Definition add_files_safe (encl : bool) (files : list (file * enc)) (st : mw) : mw :=
+  if panicked st then st else add_files encl files st.
 
-(* msgWriter.writeMsg (without S/MIME) on the resolved message *)
-Definition write_resolved (z : rmsg) (st : mw) : mw :=
+Definition write_top_headers (z : rmsg) (st : mw) : mw :=
   let m := z_msg z in
-  let st4 := write_addr_headers m (write_preformatted (m_preform m) (write_gen_headers (m_gen m) st)) in
+  write_addr_headers m (write_preformatted (m_preform m) (write_gen_headers (m_gen m) st)).
+
+(* the body entity: multipart layers, parts, embeds, attachments *)
+Definition write_entity (encl : bool) (z : rmsg) (st4 : mw) : mw :=
+  let m := z_msg z in
   let st5 := open_mp (has_mixed m) Gen.mime_mixed (m_bmixed m) (z_bad_mixed z) st4 in
   let st6 := open_mp (has_related m) Gen.mime_related (m_brelated m) (z_bad_related z) st5 in
   let st7 := open_mp (has_alt m) Gen.mime_alternative (m_balt m) (z_bad_alt z) st6 in
-  let st9 := close_mp (has_alt m) (write_parts m st7) in
-  let st10 := add_files_safe (z_embeds z) st9 in
+  let st9 := close_mp (has_alt m) (write_parts encl m st7) in
+  let st10 := add_files_safe encl (z_embeds z) st9 in
   let st11 := close_mp (has_related m) st10 in
-  let st12 := add_files_safe (z_attach z) st11 in
+  let st12 := add_files_safe encl (z_attach z) st11 in
   close_mp (has_mixed m) st12.
+
+(* msgWriter.writeMsg (without S/MIME wrapper) on the resolved message; encl = msgWriter.enclosedForm *)
+Definition write_resolved_gen (encl : bool) (z : rmsg) (st : mw) : mw :=
+  write_entity encl z (write_top_headers z st).
+
+Definition write_resolved (z : rmsg) (st : mw) : mw := write_resolved_gen false z st.
 
 Definition write_msg (date msgid : bytes) (rb : list bytes) (m : msg) (st : mw) : mw * msg :=
   let z := resolve date msgid rb m in
